@@ -44,18 +44,21 @@ func init() {
 		if !c.Preload(cfgs...) {
 			return
 		}
-		// expected_min ~ 90 % of the counts measured on the unchanged tree in the quick tier (amd64 + purego)
-		run.Rule("SIB-dispatch", "every call edge into the vector-only set is dominated by the true edge of supportsVectorizedEdwards; each switch pairs a vector routine with a generic sibling", 73)
-		run.Rule("SIB-dispatch-agree", "the (vector, generic) pairs discovered are the same in every configuration", 1)
-		run.Rule("SIB-skel"+esib.SufPair, "the two members of every (vector, generic) pair have equal skeleton normal forms", 27)
-		run.Rule("SIB-skel"+esib.SufHorner, "Horner shape per algorithm", 28)
-		run.Rule("SIB-skel"+esib.SufPolarity, "add/sub polarity of every digit use", 187)
-		run.Rule("SIB-skel"+esib.SufWidth, "recoding width <-> table size", 165)
-		run.Rule("SIB-skel"+esib.SufCtor, "lookup-table constructors", 16)
-		run.Rule("SIB-skel"+esib.SufEntry, "entry-point facts", 28)
-		run.Rule("SIB-duality", "Sub* formulas are the sign-dual of their Add* twins", 9)
-		run.Rule("SIB-scan", "constant-time lookups scan every entry exactly once", 5)
-		run.Rule("SIB-clone", "Pornin prologues and FindShortVector passes are clones", 12)
+		// expected_min ~ 90 % of the counts measured on the unchanged tree in the
+		// quick tier (amd64 + purego: 81/30/32/208/184/18/32/10/6/14), scaled by
+		// the number of configuration pairs in the thorough tier
+		k := len(cfgs) / 2
+		run.Rule("SIB-dispatch", "every call edge into the vector-only set is dominated by the true edge of supportsVectorizedEdwards; each switch pairs a vector routine with a generic sibling", 73*k)
+		run.Rule("SIB-dispatch-agree", "the (vector, generic) pairs discovered are the same in every configuration", len(cfgs)-1)
+		run.Rule("SIB-skel"+esib.SufPair, "the two members of every (vector, generic) pair have equal skeleton normal forms", 27*k)
+		run.Rule("SIB-skel"+esib.SufHorner, "Horner shape per algorithm", 28*k)
+		run.Rule("SIB-skel"+esib.SufPolarity, "add/sub polarity of every digit use", 187*k)
+		run.Rule("SIB-skel"+esib.SufWidth, "recoding width <-> table size", 165*k)
+		run.Rule("SIB-skel"+esib.SufCtor, "lookup-table constructors", 16*k)
+		run.Rule("SIB-skel"+esib.SufEntry, "entry-point facts", 28*k)
+		run.Rule("SIB-duality", "Sub* formulas are the sign-dual of their Add* twins", 9*k)
+		run.Rule("SIB-scan", "constant-time lookups scan every entry exactly once", 5*k)
+		run.Rule("SIB-clone", "Pornin prologues and FindShortVector passes are clones", 12*k)
 
 		generic := c.Prog("purego")
 		pairSets := map[string]string{}
